@@ -1133,3 +1133,53 @@ def wire_stable(ctx):
                   'deserializes (or deserializes to something else)' % (name, cur.get(name), gold[name]),
                   '%d alternative(s)' % len(gold[name]))
     ctx.floor(n, 20 if _ONLY[0] is None else 1, 'types with a recorded wire grammar')
+
+
+@rule('C13', 'enum-codec-inverse')
+def enum_codec_inverse(ctx):
+    """Field-less enums travel as an integer: `write` emits `bool::from(v) as u64`, `read` branches on the integer and picks a
+    variant. The two tables must be inverse of each other — the variant picked under `tag == k` is the one `bool::from` maps to
+    k (truth table by exact finite-domain evaluation). Otherwise a disabled attribute reloads as enabled, a hybridized one as
+    classic: every round-trip test that only ever serializes the default value still passes."""
+    from .. import fin
+    F = ctx.F
+    ENUMS = ('abe_policy::attribute::EncryptionHint', 'abe_policy::attribute::AttributeStatus')
+    table = {}
+    for adt in ENUMS:
+        fb = [b for b in F.fns() if b.name == 'from' and b.impl_trait == 'std::convert::From' and b.impl_self == 'bool'
+              and adt.split('::')[-1] in b.locals[1]['ty']]
+        if len(fb) != 1:
+            ctx.bad(adt, 'anchor-missing:From<%s> for bool' % adt.split('::')[-1], 'cannot find the conversion the writer uses')
+            continue
+        try:
+            tt_ = fin.truth_table(F, fb[0], [fin.enum_domain(F, adt)])
+        except fin.NotEvaluable as e:
+            ctx.bad(fb[0].key, 'truth-table', 'cannot evaluate: %s' % e)
+            continue
+        table[adt] = {int(bool(r.v)): a.v for (a,), r in tt_.items()}
+    n = 0
+    for (i, w, r, ln) in serializable_impls(F):
+        if r is None or w is None:
+            continue
+        name = norm_ty(i['self'])
+        # the writer really goes through bool::from for these enums
+        for fb in lib.family_ext(F, r.key):
+            evs = shallow_events(F, fb, 'r')
+            for (label, blocks, leb, cmp_, cv) in read_branches(F, fb, evs):
+                if cv is None or blocks is None:
+                    continue
+                for b in sorted(blocks):
+                    for st in fb.stmts(b):
+                        rv = st['rv']
+                        if rv['k'] == 'agg' and rv.get('adt') in table and not rv['ops']:
+                            # only the assignment made directly on this branch, not under a nested comparison
+                            inner = [x for x in read_branches(F, fb, evs) if x[1] is not None and b in x[1] and x[1] < blocks]
+                            if inner:
+                                continue
+                            n += 1
+                            want = table[rv['adt']].get(cv)
+                            ctx.check(want == rv['variant'], name, 'read: tag %s -> %s::%s' % (cv, rv['adt'].split('::')[-1], want),
+                                      'read of %s decodes the value %s of a %s as %s (line %d), the writer emits %s for %s: the value does '
+                                      'not survive a round trip' % (name, cv, rv['adt'].split('::')[-1], rv['variant'], st['ln'], cv, want),
+                                      'inverse of bool::from', fb.where(st['ln']))
+    ctx.floor(n, 4 if _ONLY[0] is None else 1, 'enum constants chosen by a wire tag')
